@@ -318,9 +318,23 @@ class Env(object):
             self.cur.setdefault('dev', []).append(ev)
         else:
             self.cur = self._new_step(ev)
+        self._apply(p, ev)
+
+    def _apply(self, p, ev):
         kind = ev[0]
         sock = self.sock
-        if kind in ('pdu', 'bytes'):
+        if kind == 'multi':
+            # several environment events become visible at the same instant (same loop head)
+            for sub in ev[1]:
+                self._apply(p, sub)
+        elif kind == 'bytes_close':
+            # the peer sent these bytes and closed at once: both are visible at the next poll
+            if sock is not None and not sock.closed and not sock.peer_closed:
+                sock.inq += ev[1]
+                sock.peer_closed = True
+            else:
+                self.cur['log'].append('undeliverable')
+        elif kind in ('pdu', 'bytes'):
             if sock is not None and not sock.closed and not sock.peer_closed:
                 sock.inq += ev[1]
             else:
